@@ -397,7 +397,9 @@ func (w *pw) publish(name string, com *committee, pubPos int, nonce pp.Nonce, bo
 }
 
 func (w *pw) classify(u *pp.Unit) (*message, int) {
-	for _, m := range w.msgs {
+	// a unit identical to a published one has that message's routing key, and keys are unique among the
+	// published messages (publish refuses anything else)
+	if m := w.byKey[pp.JsimExtractKey(u)]; m != nil {
 		for i := range m.units {
 			if unitEq(u, &m.units[i]) {
 				return m, i
@@ -788,6 +790,11 @@ func (w *pw) incFor(key pp.JsimKey) *inc {
 // prune: model entries whose subprocessor is gone (Processor.finalize ran). A broadcast that is owed must
 // have happened by then.
 func (w *pw) prune(o obs) {
+	// an entry of Processor.subProcessors appears only inside a ProcessMessage call (deliver() adds the model
+	// entry) and disappears only in Processor.finalize: equal counts mean that none has ended
+	if pp.JsimNumSubprocessors(w.p) == len(w.incs) {
+		return
+	}
 	kept := w.incs[:0]
 	for _, in := range w.incs {
 		if pp.JsimHasSubprocessor(w.p, in.key) {
@@ -998,6 +1005,14 @@ func (w *pw) deliver(dv *delivery) {
 	in := w.incFor(key)
 	had := pp.JsimHasSubprocessor(w.p, key)
 	if had && in == nil {
+		if why := w.refusedWhy[key]; why != "" && !w.everStarted[key] {
+			// the only calls that ever carried this key were refused at a bound, no goroutine was started -
+			// yet Processor.subProcessors holds a channel for it: nobody reads it, every further unit of the
+			// message is dropped as 'channel full', and nothing (no timeout, no finalization) ever removes it
+			w.reportAt("swallowed", "refused_at_capacity_left_entry_without_subprocessor", why,
+				"unit %s: Processor.subProcessors has an entry for a message whose units were all refused at the task bound (%s) and for which no subprocessor goroutine was ever started", dv.note, why)
+			return
+		}
 		c.Broken("model lost track of a subprocessor")
 	}
 	w.mu.Lock()
@@ -1571,7 +1586,7 @@ func (w *pw) runFlood() {
 	// class 'global': every other member publishes, round robin, until the bound on ALL tasks is hit
 	pubs := []int{pubPos}
 	step := time.Millisecond
-	if t.Draw("flood_scope", 4) == 3 && maxAll >= 1 && maxAll <= 4096 && uint64(n-1)*(mpp-1) >= maxAll+3 {
+	if t.Draw("flood_scope", 8) == 7 && maxAll >= 1 && maxAll <= 4096 && uint64(n-1)*(mpp-1) >= maxAll+3 {
 		pubs = pubs[:0]
 		for q := 0; q < n; q++ {
 			if pos := (pubPos + q) % n; pos != com.localPos {
@@ -1616,6 +1631,9 @@ func (w *pw) runFlood() {
 	w.advance(w.timeout + time.Second)
 	if !w.quiesced("after_flood") || len(w.viols) > 0 {
 		return
+	}
+	if len(pubs) > 1 {
+		return // the refill below is about one publisher; the single-publisher class does it
 	}
 	// the whole bound is available again
 	for j := 0; j < bound; j++ {
@@ -1685,7 +1703,9 @@ func (w *pw) retryRefused(step time.Duration) bool {
 	// whatever was tried: while the counters show no free slot, the clock passes the deadline of the oldest
 	// subprocessors (a refusal remembered by mistake would still be remembered: it is younger than they are)
 	r0 := w.refused[0]
+	by := []string{"timeout", "completion", "forged_first_unit"}[way]
 	if !w.hasRoom(r0.pub.id) && len(w.incs) > 0 {
+		by = "timeout"
 		idx := want - 1
 		if idx >= len(w.incs) {
 			idx = len(w.incs) - 1
@@ -1712,6 +1732,9 @@ func (w *pw) retryRefused(step time.Duration) bool {
 			break
 		}
 		c.Probe("capacity_back_after_refusal")
+		if q == 0 {
+			c.Probe("capacity_back_by_" + by)
+		}
 		total := r.d + r.p
 		other := 0
 		if r.localIdx == 0 {
